@@ -14,7 +14,7 @@
    shows cannot occur with fuel above the rank. *)
 From Coq Require Import ZArith NArith List Bool.
 From NG Require Import Gen.LifeConsts V2.Life V2.Life_proofs V2.Life_scope V2.Life_fuel V2.Life_now
-                       V2.Life_examples V2.Life_count V2.Life_activation V2.Life_activation_examples.
+                       V2.Life_examples V2.Life_count V2.Life_activation V2.Life_activation_examples V2.Life_cleanup.
 Import ListNotations.
 Open Scope N_scope.
 
@@ -129,6 +129,29 @@ Theorem C06_activation_count :
     Inv s -> famk s -> arun rel fuel l s = Ok s' -> aoks rel fuel l s -> Inv s' /\ famk s'.
 Proof. exact arun_inv_fam. Qed.
 Print Assumptions C06_activation_count.
+
+(* ... and the same with the clean-up of old instances (_clean_up_state, at the start of every
+   run_to_completion; `aged` = older than 5 s, the clock is external) among the operations, for the
+   clean-up AS READ FROM THE CURRENT SOURCE: it must never discard the parent of an instance that is
+   running or still activated (translator flag; without it this obligation does not check).  What it
+   discards is ended, has count 0 and is nobody's needed parent. *)
+Theorem C06_cleanup :
+  (forall rel fuel l s s',
+     Inv s -> famk s -> brun cleanup_keeps_needed_parents rel fuel l s = Ok s' ->
+     boks cleanup_keeps_needed_parents rel fuel l s -> Inv s' /\ famk s') /\
+  (forall aged s s',
+     cleanup true aged s = Ok s' -> Inv s ->
+     forall u i, getf s u = Some i -> getf s' u = None ->
+       done (i_status i) = true /\ i_activated i = 0%Z /\
+       (forall x xi, getf s x = Some xi -> i_parent xi = Some u -> needs_parent xi -> False)).
+Proof. exact (conj brun_now_inv cleanup_discards). Qed.
+Print Assumptions C06_cleanup.
+
+(* regression documentation: a clean-up WITHOUT that side condition discards the ended first activator
+   (the parent of the reference instance); the end of the last activator then raises KeyError *)
+Theorem C06_cleanup_unguarded_refuted : cleanup_unguarded_loses_link.
+Proof. exact cleanup_unguarded_witness. Qed.
+Print Assumptions C06_cleanup_unguarded_refuted.
 
 (* The three clauses of the property text.
    (a) An instance that ends by itself emits, as its last events, FlowFailed / FlowFinished followed
